@@ -32,9 +32,11 @@ CFG = {
                   "replicas only (the model has no notion of a handler waiting for its disk).",
     "harness": "c06",
     "replay_by_seed": True,
-    "n": {"quick": 1200, "thorough": 30000},
-    "rule": "as C01, each case followed by the synchronous suffix; non-trivial = distinct op whose outcome class differs from the "
-            "modal class",
+    "n": {"quick": 1200, "thorough": 18000},
+    "rule": "N/150 cases: adversarial prefix as in C01 but 300 steps, then in rotation nothing / slow-storage episode and crash of "
+            "every node / isolated-laggard episode, then the fair synchronous suffix (timers at every correct replica, every "
+            "message delivered in order, blocks fetchable, Byzantine validators silent) must commit a new block at every correct "
+            "replica within n+8 rounds; non-trivial = distinct op whose outcome class differs from the modal class",
     "trusted": ["hand-written replica model", "simulation scheduler as the fair network"],
     "assumptions": ["correct weight >= quorum; leaders rotate round-robin over all validators (at least one correct leader within "
                     "n views)"],
